@@ -227,6 +227,9 @@ func (v *Voucher) VerifyCertChainHash() error {
 	}
 
 	cchash := v.Header.Val.CertChainHash
+	if !cchash.Algorithm.Valid() {
+		return fmt.Errorf("unsupported hash type %d for certificate chain hash", int64(cchash.Algorithm))
+	}
 	digest := cchash.Algorithm.HashFunc().New()
 	for _, cert := range *v.CertChain {
 		if _, err := digest.Write(cert.Raw); err != nil {
@@ -576,7 +579,7 @@ func hashAlgFor(devicePubKey, ownerPubKey crypto.PublicKey) (protocol.HashAlg, e
 	case 384:
 		return protocol.Sha384Hash, nil
 	default:
-		panic("only hash sizes of 256 and 384 are included in FDO")
+		return 0, fmt.Errorf("unsupported attestation key size: only hash sizes of 256 and 384 are included in FDO")
 	}
 }
 
